@@ -151,6 +151,8 @@ pub fn exec_yaml(input: &Value) -> Value {
     json!({"parse": parse, "tree": tree, "roundtrip": roundtrip})
 }
 
+const LONG_SEQUENCE_AFFORDABLE: bool = true;
+
 pub fn generate(thorough: bool, seed: u64, em: &mut Emitter) {
     let mut r = Rng::new(seed ^ 0xC15);
     let n = if thorough { 30_000 } else { 2_000 };
@@ -183,6 +185,22 @@ pub fn generate(thorough: bool, seed: u64, em: &mut Emitter) {
         em.case("yaml", json!({"doc": doc, "claims": claims, "paths": paths, "expect_ok": true,
                                "tag": if respelled { json!("tag_spelled_differently") } else { Value::Null },
                                "nontrivial": marks.iter().any(|m| m.len() > 1) || marks.iter().any(|m| marks.iter().any(|q| q != m && gen::is_prefix(m, q)))}));
+    }
+    for (len, tagged) in [(1_100usize, vec![9usize, 10, 99, 100, 255, 256, 999, 1_000, 1_099]), (66_000, vec![255, 256, 9_999, 10_000, 32_767, 32_768, 65_535, 65_536, 65_537, 65_999])] {
+        if len > 2_000 && !LONG_SEQUENCE_AFFORDABLE {
+            continue;
+        }
+        let mut doc = String::from("id: 1\nlist:\n");
+        let mut items = Vec::with_capacity(len);
+        for i in 0..len {
+            let text = format!("v{}", i % 7);
+            doc.push_str(if tagged.contains(&i) { "  - !sd " } else { "  - " });
+            doc.push_str(&text);
+            doc.push('\n');
+            items.push(json!(text));
+        }
+        let paths: Vec<String> = tagged.iter().map(|i| format!("/list/{}", i)).collect();
+        em.case("yaml", json!({"doc": doc, "claims": {"id": 1, "list": items}, "paths": paths, "expect_ok": true, "nontrivial": true, "tag": "long_sequence"}));
     }
     // tags where the library does not support them (on a value, foreign tags, !sd on a non-string item): it may
     // refuse the document, but when it answers, the claims must be the document without its tags - a tag must
